@@ -926,3 +926,18 @@ SPECS["C17"]["level_text"] += (' Props/C17W (track anch): the codec-level clause
     'failed read changes nothing but the arena, whose bump pointer is back where ensure_capacity left it, and a successful one leaves the state encode of exactly '
     'those bytes leaves (encode_read_spec, encode_read_failed_bump); in any run an encode_read / decode_read can be replaced by encode / decode of the delivered '
     'bytes (by nothing when it failed) without changing output or verdict (read_is_feed_of_delivered, dec_read_is_feed_of_delivered).')
+SPECS["C03"]["lean_modules"] += ["Woodpile.Props.C03G"]
+SPECS["C03"]["theorems"] += [
+    "Woodpile.Props.C03G.aop_refines",
+    "Woodpile.Props.C03G.read_push_no_panic",
+    "Woodpile.Props.C03G.read_push_appends",
+    "Woodpile.Props.C03G.reachable_refines",
+    "Woodpile.Props.C03G.reachable_facts",
+]
+SPECS["C03"]["level_text"] += (' Props/C03G (track anch): the vocabulary extended with ANCHORED pushes. AOp = Op + the composite readPush (read_n into the iovec\'s own '
+    'arena with a scripted, possibly faulty reader; OwningIovec::push of the sub-slices of the returned slice selected by a cut list, in order - copied or borrowed '
+    'arena memory, merged when adjacent -; push_anchor): it never panics, preserves the structural invariant and refines append of exactly the selected pieces of '
+    'the bytes read; every AOp history from the initial world refines the abstract pipe (reachable_refines), sizes / non-empty slices / hole-free stable prefix '
+    'included (reachable_facts). For this the invariant IovInv was weakened: owned slices pairwise disjoint (not allocation-ordered), zero-count anchors allowed. '
+    'Scope: own-arena anchored slices pushed as one composite; interleaving with register_patch/backfill is the encoder\'s pattern (Props/C01G); foreign '
+    'AnchoredSlices, clone/take/arena swap remain C20\'s multi-object vocabulary.')
